@@ -191,6 +191,11 @@ class WorldAdapter:
             root = (desper.Controller,) if controllers else (object,)
             bs = tuple(env.types[b] for b in sorted(K['Bases'][t])) or root
             env.types[t] = type(t, bs, dict(base_ns) if bs == root else {})
+            if controllers and bs != root and self.counter % 2:
+                # a decorated leaf below an UNDECORATED intermediate class (Controller <- project base <- leaf with an
+                # event of its own): the mapping inherited through the gap - Controller's on_add - must survive
+                leaf = type(t + '_leaf', (env.types[t],), {'verif_unused': lambda self, *a, **k: None})
+                env.types[t] = desper.event_handler('verif_unused')(leaf)
         def make_comp(c):
             o = env.types[K['TypeOf'][c]]()
             o.name = c
